@@ -93,7 +93,9 @@ M = [
                 }""", """                for mi in (0..self.runtime.len()).rev() {
                     self.transition(mi, Event::TunnelSent);
                 }""", ["C05"]),
- ("c05_static_counter_influences", FW, """        if let Some(vector) = &self.transitions[event.to_usize()] {""", """        if let Some(vector) = &self.transitions[event.to_usize()] {
+ ("c05_static_counter_influences", ST, """        use rand::Rng;
+        if let Some(vector) = &self.transitions[event.to_usize()] {""", """        use rand::Rng;
+        if let Some(vector) = &self.transitions[event.to_usize()] {
             static CALLS: std::sync::atomic::AtomicU64 = std::sync::atomic::AtomicU64::new(0);
             if CALLS.fetch_add(1, std::sync::atomic::Ordering::Relaxed) % 4096 == 4095 {
                 return None;
@@ -151,11 +153,32 @@ M = [
  ("c10_shared_zeroed_flags", FW, "if old_value_a != 0 && *updated_value_a == 0 && !self.counter_zeroed_once[mi].0 {\n                any_counter_zeroed = true;\n                self.counter_zeroed_once[mi].0 = true;", "if old_value_a != 0 && *updated_value_a == 0 && !self.counter_zeroed_once[0].0 {\n                any_counter_zeroed = true;\n                self.counter_zeroed_once[0].0 = true;", ["C10", "C08", "C05"]),
  # ---- C11
  ("c11_read_to_end", MA, """        let mut buf = vec![0; MAX_DECOMPRESSED_SIZE];
-        let bytes_read = decoder
-            .read(&mut buf)
-            .map_err(|e| Error::Machine(e.to_string()))?;""", """        let mut buf = vec![];
+        // a single read() may return before the stream ends or the buffer is
+        // full, so read until either happens
+        let mut bytes_read = 0;
+        while bytes_read < buf.len() {
+            match decoder
+                .read(&mut buf[bytes_read..])
+                .map_err(|e| Error::Machine(e.to_string()))?
+            {
+                0 => break,
+                n => bytes_read += n,
+            }
+        }""", """        let mut buf = vec![];
         let bytes_read = decoder
             .read_to_end(&mut buf)
+            .map_err(|e| Error::Machine(e.to_string()))?;""", ["C11"]),
+ ("c11_single_read_again", MA, """        let mut bytes_read = 0;
+        while bytes_read < buf.len() {
+            match decoder
+                .read(&mut buf[bytes_read..])
+                .map_err(|e| Error::Machine(e.to_string()))?
+            {
+                0 => break,
+                n => bytes_read += n,
+            }
+        }""", """        let bytes_read = decoder
+            .read(&mut buf)
             .map_err(|e| Error::Machine(e.to_string()))?;""", ["C11"]),
  ("c11_drop_validate_in_from_str", MA, """        let m: Machine = r.map_err(|e| Error::Machine(e.to_string()))?;
         m.validate()?;""", """        let m: Machine = r.map_err(|e| Error::Machine(e.to_string()))?;""", ["C11", "C12"]),
@@ -179,7 +202,8 @@ M = [
  # ---- C14
  ("c14_delay_plus", SIM, "let sent = timestamp - network.delay;", "let sent = timestamp + network.delay;", ["C14"]),
  ("c14_pps_times_1", SIM, "sq.max_pps = Some(sent_max_pps.max(recv_max_pps) * 10);", "sq.max_pps = Some(sent_max_pps.max(recv_max_pps));", ["C14"]),
- ("c14_drop_equal_preference", QE, "ordering == std::cmp::Ordering::Less || ordering == std::cmp::Ordering::Equal\n}", "ordering == std::cmp::Ordering::Less\n}", ["C14", "C15", "C19"]),
+ ("c14_drop_equal_preference", QE, """            // prefer a if it's equal, since it's the base event
+            ordering == std::cmp::Ordering::Less || ordering == std::cmp::Ordering::Equal""", """            ordering == std::cmp::Ordering::Less""", ["C14", "C15", "C19"]),
  # ---- C15
  ("c15_recv_without_delay", NET, "next.time - next.integration_delay + network_delay + reporting_delay,", "next.time - next.integration_delay + reporting_delay,", ["C15", "C14"]),
  ("c15_padding_flag_flipped_on_replace", NET, """                        entry.bypass = true;
